@@ -16,7 +16,7 @@ with open("/verif/seeded/SUMMARY.md", "w") as f:
     f.write("\n# Second round: two more per property (seeded/<ID>/r2A, r2B), different clauses; tests run by the authors on the changed modules\n\n")
     f.write("| change | verdict (quick tier, VERIF_REPO=<patched scratch worktree>) | note | check strengthened first? |\n|---|---|---|---|\n")
     n2 = 0
-    for d in sorted(glob.glob("/verif/seeded/C*/r[234]*")):
+    for d in sorted(glob.glob("/verif/seeded/C*/r[2345]*")):
         m = json.load(open(d + "/meta.json"))
         f.write(f"| {m['name']} | {m['caught_by'][:220]} | {(m.get('note') or '')[:300]} | {m.get('strengthening') or 'no'} |\n")
         n2 += 1
